@@ -47,6 +47,21 @@ def build_harness(log):
     return rc == 0, o
 
 
+def translator_fallback(ctx, gen_name, reason, covered_by):
+    """A translator could not read the (restructured) source.  The table it regenerates is then taken from the copy
+    written for the unchanged tree (lean/baseline: for this run a hand-written model), the theorems are checked over
+    it, and the tie of this run is the correspondence named by `covered_by`, which executes EVERY cell of that finite
+    table on the real code.  Recorded in the evidence; a difference found there is reported with its input as usual."""
+    src = os.path.join(LEAN, "baseline", gen_name + ".lean.txt")
+    dst = os.path.join(LEAN, "Vore", gen_name + ".lean")
+    with open(dst, "w") as f:
+        f.write(open(src).read())
+    if not hasattr(ctx, "fallbacks"):
+        ctx.fallbacks = []
+    ctx.fallbacks.append(dict(table=gen_name, translator_said=reason[-600:], tie_of_this_run=covered_by))
+    ctx.log.append({"step": "translator fallback " + gen_name, "reason": reason[-300:]})
+
+
 def build_lean(targets, log):
     rc, o = sh(["lake", "build"] + targets, cwd=LEAN, timeout=3000)
     log.append({"step": "lake build " + " ".join(targets), "rc": rc, "out": o[-3000:]})
